@@ -33,6 +33,8 @@ def _lean_modules():
     mods = ["PyAirtouch.Props.C14At5"]
     if os.path.exists(os.path.join(core.LEAN_DIR, "PyAirtouch", "Props", "C14At4.lean")):
         mods.append("PyAirtouch.Props.C14At4")
+    if os.path.exists(os.path.join(core.LEAN_DIR, "PyAirtouch", "Props", "C14At4b.lean")):
+        mods.append("PyAirtouch.Props.C14At4b")
     return mods
 
 
